@@ -15,6 +15,7 @@ import (
 )
 
 func init() {
+	gens["c12-derived-alltypes"] = c12DerivedAllTypes
 	gens["c12-strings"] = c12Strings
 	gens["c12-sockaddr"] = c12Sockaddr
 	gens["c12-syscalls"] = c12Syscalls
@@ -454,6 +455,54 @@ func c12Syscalls(c *enumx.Ctx) {
 
 // ---- derived fields ------------------------------------------------------------------
 
+// c12DerivedAllTypes: the derived-field rules are stated for records, not for SYSCALL records:
+// every record type 0..65535 carrying the kernel's success=no exit=-N pair, res=, and unset ids.
+func c12DerivedAllTypes(c *enumx.Ctx) {
+	errno := refdata.Errno()
+	for t := 0; t < 65536; t++ {
+		if !c.Mine() {
+			continue
+		}
+		for variant, body := range []string{
+			"pid=1 uid=0 auid=4294967295 ses=-1 success=no exit=-13 a0=1 comm=\"x\"",
+			"pid=1 uid=0 auid=1000 ses=4294967295 exit=-2 res=failed",
+		} {
+			raw := hdr + body
+			c.Begin(func() string { return fmt.Sprintf("type %d: %s", t, raw) })
+			c.Try("C12", func() {
+				m, err := auparse.Parse(auparse.AuditMessageType(t), raw)
+				if err != nil {
+					return
+				}
+				d, err := m.Data()
+				if err != nil {
+					// structural fields of this type missing (EXECVE argc, SOCKADDR saddr ...): not this generator's business
+					return
+				}
+				wantErrno := uint64(13)
+				wantAuid, wantSes := "unset", "unset"
+				if variant == 1 {
+					wantErrno, wantAuid = 2, "1000"
+				}
+				if v, ok := errno[d["exit"]]; !ok || v != wantErrno {
+					c.Report("C12 exit-errno-name", fmt.Sprintf("record type %d (%v) %q: exit=%q, want the name of errno %d", t, auparse.AuditMessageType(t), raw, d["exit"], wantErrno), nil)
+					return
+				}
+				if d["result"] != "fail" {
+					c.Report("C12 result-normalisation", fmt.Sprintf("record type %d (%v) %q: result=%q want \"fail\"", t, auparse.AuditMessageType(t), raw, d["result"]), nil)
+					return
+				}
+				if d["auid"] != wantAuid || d["ses"] != wantSes {
+					c.Report("C12 unset-id-normalisation", fmt.Sprintf("record type %d (%v) %q: auid=%q ses=%q want %q %q", t, auparse.AuditMessageType(t), raw, d["auid"], d["ses"], wantAuid, wantSes), nil)
+					return
+				}
+				c.Nontrivial()
+			})
+		}
+	}
+	c.Sample("every record type: success=no exit=-13 auid=4294967295 => result=fail exit=EACCES auid=unset")
+}
+
 func c12Derived(c *enumx.Ctx) {
 	errno := refdata.Errno()
 	byNum := map[uint64][]string{}
@@ -636,7 +685,53 @@ func c12Placeholders(c *enumx.Ctx) {
 			}
 		}
 	}
-	c.Sample("PATH ... name=(null) inode=5 ... => key name absent, every other field intact")
+	// "drops ONLY the placeholder values": values that merely look like placeholders / sentinels
+	// (the strings kernels and tools print for "nothing here") are ordinary values and stay
+	sentinels := []string{"<no_memory>", "<too_long>", "(none)", "none", "null", "NULL", "nil", "-", "--", "unknown", "<unknown>", "(unknown)", "N/A", "n/a",
+		"??", "?,?", ",?", "?,,", "(null),", "((null))", "(null)x", "x(null)", "(NULL)", "(Null)", "<null>", "[null]", "undefined", "<none>", "(nil)", "<nil>", "*", "~", ".", "?x", "x?", "<no_memorx>", "empty", "unset_", "(deleted)", "<deleted>", "(unreachable)"}
+	passThrough := map[string]bool{"tty": true, "comm": true, "exe": true, "name": true, "nametype": true, "proctitle": true,
+		"a0": true, "a1": true, "cwd": true, "cmd": true, "terminal": true, "op": true, "acct": true, "hostname": true, "addr": true}
+	for _, t := range tmpls {
+		for i, f := range t.fields {
+			if !passThrough[f[0]] || (t.typ == 1300 && (f[0] == "a0")) {
+				continue
+			}
+			for _, sv := range sentinels {
+				if !c.Mine() {
+					continue
+				}
+				enc := sv
+				if strings.HasPrefix(f[1], "\"") {
+					enc = "\"" + sv + "\""
+				}
+				if t.inMsg && strings.ContainsAny(sv, "'") {
+					continue
+				}
+				fields := append([][2]string{}, t.fields...)
+				fields[i] = [2]string{f[0], enc}
+				raw := render(t, fields)
+				c.Begin(func() string { return fmt.Sprintf("Parse(%d, %q)", t.typ, raw) })
+				c.Try("C12", func() {
+					m, err := auparse.Parse(auparse.AuditMessageType(t.typ), raw)
+					if err != nil {
+						c.Report("C12 parse-error", err.Error(), nil)
+						return
+					}
+					d, err := m.Data()
+					if err != nil {
+						c.Report(fmt.Sprintf("C12 ordinary-value-kills-record:%s.%s", t.name, f[0]), fmt.Sprintf("%s record with the ordinary value %s=%s: Data() returns %q: %q", t.name, f[0], enc, err, raw), nil)
+						return
+					}
+					if got, there := d[f[0]]; !there || got != sv {
+						c.Report(fmt.Sprintf("C12 ordinary-value-dropped:%s.%s", t.name, f[0]), fmt.Sprintf("%q: the value %q is not one of the placeholders (?, ?, (null), empty) but Data()[%s] = %q (present: %v)", raw, sv, f[0], got, there), nil)
+						return
+					}
+					c.Nontrivial()
+				})
+			}
+		}
+	}
+	c.Sample("PATH ... name=(null) inode=5 ... => key name absent, every other field intact; name=\"<too_long>\" kept")
 }
 
 func derivedKey(k string) bool { return false }
